@@ -77,6 +77,7 @@ class Force(object):
             for node in nodes:
                 node.layerIndex = layerIndex
             removeOverlap.removeOverlap(nodes, simOptions)
+        self.layers = layers
 
     def metrics(self):
         methods = [m for m in dir(metrics) if not m.startswith("_")]
